@@ -328,7 +328,11 @@ pub(crate) fn count_lf_crlf(input: &str) -> (usize, usize) {
     for c in input.as_bytes() {
         match c {
             b'\r' => is_crlf = true,
-            b'\n' if is_crlf => crlf += 1,
+            b'\n' if is_crlf => {
+                crlf += 1;
+                // the line feeds that follow have no carriage return of their own
+                is_crlf = false;
+            }
             b'\n' => lf += 1,
             _ => is_crlf = false,
         }
